@@ -743,6 +743,13 @@ class Interp:
                         return v
                     return Other("dict")
                 return DictV(None)
+            if fn.id == "filter" and len(args) == 2 and isinstance(args[0], ast.Constant) and args[0].value is None:
+                # filter(None, xs): the truthy elements of xs - a sub-collection
+                v = self.eval(a, args[1], st, n)
+                if isinstance(v, ListV) and isinstance(v.elem, Str):
+                    return ListV(Str((v.elem.lang & L.cat(L.chars(FULL), L.sigma_star())).minimized(), v.elem.strips))
+                if isinstance(v, (ListV, Poison)):
+                    return v
             if fn.id in ("set", "frozenset", "range", "enumerate", "zip", "filter", "map", "iter", "next", "getattr", "type", "repr", "print"):
                 return Other(fn.id)
         # methods ------------------------------------------------------------
@@ -879,9 +886,19 @@ class Interp:
             sub = recv.lang.substring_closure()
             if c is not None and len(args) == 1 and m in ("split", "rsplit"):
                 sub = sub & no_substring(c)
+            if m in ("partition", "rpartition") and c is not None and len(args) == 1:
+                # head / separator / tail: the separator is c or empty; for partition the head holds no occurrence of c
+                # (it ends before the first one, or is the whole string when there is none), the tail is a suffix
+                sepv = Str((L.lit(c) | L.eps()).minimized())
+                if m == "partition":
+                    return TupleV([Str(recv.lang.prefix_closure() & no_substring(c), recv.strips), sepv, Str(recv.lang.suffix_closure())])
+                return TupleV([Str(recv.lang.prefix_closure()), sepv, Str(recv.lang.suffix_closure() & no_substring(c))])
             if m in ("partition", "rpartition"):
                 return TupleV([Str(sub), Str(sub), Str(sub)])
             return ListV(Str(sub))
+        if m in ("removeprefix", "removesuffix"):
+            # the string itself, or what is left after cutting the affix off one end
+            return Str((recv.lang | (recv.lang.suffix_closure() if m == "removeprefix" else recv.lang.prefix_closure())).minimized())
         if m in ("startswith", "endswith", "isdigit", "isalpha", "isspace"):
             return Other("bool")
         if m == "replace":
@@ -950,6 +967,17 @@ class Interp:
                     yes = pol if isinstance(op, ast.In) else not pol
                     contains(r.id, c, yes)
                 return st
+            # v[:k] == c  with len(c) == k: v starts with c (written as a slice comparison)
+            if isinstance(op, (ast.Eq, ast.NotEq)):
+                for a0, b0 in ((l, r), (r, l)):
+                    if isinstance(a0, ast.Subscript) and isinstance(a0.value, ast.Name) and isinstance(a0.slice, ast.Slice) and a0.slice.lower is None and a0.slice.step is None \
+                            and isinstance(a0.slice.upper, ast.Constant) and isinstance(a0.slice.upper.value, int) and isinstance(st.get(a0.value.id), Str):
+                        c = self._const_arg(a, b0, st)
+                        if c is not None and len(c) == a0.slice.upper.value and len(c) > 0:
+                            lang = L.cat(L.lit(c), L.sigma_star()).minimized()
+                            eq = pol if isinstance(op, ast.Eq) else not pol
+                            set_lang(a0.value.id, (lambda x: x & lang) if eq else (lambda x: x - lang))
+                            return st
             # x != x.upper()
             if isinstance(op, (ast.NotEq, ast.Eq)) and isinstance(l, ast.Name) and isinstance(r, ast.Call) \
                     and isinstance(r.func, ast.Attribute) and r.func.attr in ("upper", "lower") \
